@@ -7,7 +7,7 @@
    inline_spec lit empty proc inp = the statement with every bind replaced by the value given for ITS name,
                                 converted once by ITS bind processor (proc p : the processor of a typed bind)
    guard tab inp              = escaped names of distinct binds are distinct, names created for expanding binds
-                                are new, literal_execute binds need no escaping, values have the bind's shape *)
+                                are new, values have the bind's shape *)
 From Coq Require Import List NArith ZArith Bool.
 Import ListNotations.
 From SAV.sql Require Import Params ParamsDict ParamsEscape ParamsGuard ParamsFinal ParamsPos ParamsNum ParamsRun ParamsMain.
@@ -111,12 +111,12 @@ Proof.
 Qed.
 Print Assumptions c04_expanded_name_collision_refuted.
 
-(* a literal_execute bind called "a b": parameters.pop(escaped_name) on the dictionary keyed by unescaped
-   names raises KeyError under every paramstyle *)
-Theorem c04_literal_execute_escaped_name_refuted :
-  guard sa_tab w_lit = false /\ forall ps, delivered ps w_lit = Raise KeyError.
+(* a literal_execute bind called "a b" = 5 (repaired by 47bdcc8: the parameter is popped by its un-escaped name;
+   before, every paramstyle raised KeyError): inside the guard, inlined under every paramstyle *)
+Example c04_ex_literal_execute_escaped_name :
+  guard sa_tab w_lit = true /\
+  forall ps, delivered ps w_lit = Ok (inline_spec lit_dec empty0 run_proc w_lit).
 Proof. split; [vm_compute; reflexivity|]. intros []; vm_compute; reflexivity. Qed.
-Print Assumptions c04_literal_execute_escaped_name_refuted.
 
 (* two bind objects share the name "p" and only the second is literal_execute: the first occurrence
    keeps its placeholder but its value is removed from the parameters (numeric even renders an empty string),
